@@ -28,6 +28,7 @@ LEVEL_TEXT = (
     "non-data producer; the specific error class and its attributes are checked. On every rejection the log of execute() "
     "calls must be empty and the working directory unchanged. The matrix is complete; fault positions are complete per "
     "drawn model; models are sampled."
+    " A paths part spells the reader's and writer's file names in nine ways (./, ../, sibling and parent directories, dot-files, blanks and non-ASCII directories, absolute) with the file present, absent, or absent while a same-named file sits in the working directory, under two current directories."
 )
 LEVEL_NOTE = "Cells the docs leave open are not asserted and counted: list/tuple/number given for a String parameter (coerced to text), a number other than 0/1 given for a Boolean."
 RULE = (
